@@ -18,7 +18,7 @@ SMALL = [
 BIG = [wl("fail_branch"), wl("first_of"), wl("quorum"), wl("multi_merge"), wl("fan3"), wl("diamond_multitask"),
        wl("jump_side_fanin", 1), wl("jump_cycle", 3, 1), wl("choice3")]
 FAULT = [wl("chain3"), wl("diamond"), wl("multitask"), wl("synthetic"), wl("synthetic2"), wl("fail_mid"), wl("first_of"),
-         wl("jump_cycle", 2, 1), wl("suspend_gate"), wl("or_split_join")]
+         wl("jump_cycle", 2, 1), wl("suspend_gate"), wl("or_split_join"), wl("synthetic_gate"), wl("synthetic_multitask")]
 CANCEL = [wl("diamond"), wl("multitask"), wl("fail_branch"), wl("synthetic"), wl("poll", 1)]
 
 
